@@ -13,20 +13,18 @@ namespace Mrm
 
 /-- what `DomOrder` provides -/
 theorem DomOrder_unpack {d m : Xml} {k : Kind} (h : DomOrder ⟨d, m, k⟩ = true) :
-    ∃ rc base ids, rcOf d = some rc ∧ WfKids "story" rc.kids = true ∧
-      (rc.kids.all (fun s => s.tag != "story" || WfKids "item" s.kids)) = true ∧
+    ∃ rc base ids, rcOf d = some rc ∧
       completed d = false ∧ storiesExc rc = none ∧ shaped k m = true ∧
       m.find k.baseTag = some base ∧ containerIds k (namedOf k base) d = some ids ∧
       (∀ x ∈ ids, x.isSome = true) ∧ ids.Nodup ∧ resolves k (namedOf k base) ids = true := by
   unfold DomOrder at h
   simp only [Bool.and_eq_true] at h
   obtain ⟨⟨⟨⟨⟨hwf, hc⟩, htim⟩, hsh⟩, _⟩, hrest⟩ := h
-  unfold WfRO at hwf
   unfold TimingOk at htim
   cases hrc : rcOf d with
-  | none => simp [hrc] at hwf
+  | none => simp [WfRO, hrc] at hwf
   | some rc =>
-    simp only [hrc, Bool.and_eq_true] at hwf htim
+    simp only [hrc, Bool.and_eq_true] at htim
     cases hb : m.find k.baseTag with
     | none => simp [hb] at hrest
     | some base =>
@@ -35,7 +33,7 @@ theorem DomOrder_unpack {d m : Xml} {k : Kind} (h : DomOrder ⟨d, m, k⟩ = tru
       | none => simp [hci] at hrest
       | some ids =>
         simp only [hci, Bool.and_eq_true, List.all_eq_true, decide_eq_true_eq] at hrest
-        refine ⟨rc, base, ids, rfl, hwf.1, hwf.2, by simpa using hc, by simpa using htim, hsh, rfl, hci,
+        refine ⟨rc, base, ids, rfl, by simpa using hc, by simpa using htim, hsh, rfl, hci,
           hrest.1.1, hrest.1.2, hrest.2⟩
 
 theorem shaped_mid {k : Kind} {m : Xml} (h : shaped k m = true) : msgIdExc m = none := by
@@ -74,14 +72,14 @@ theorem story_core (k : Kind) (rc base : Xml) (g : Good "story" rc.kids) (hk : k
 theorem order_story (i : MergeInput) (h : DomOrder i = true) (hs : i.k.isStoryLevel = true) :
     holdsOrder i (addK i.k i.d i.m) = true := by
   obtain ⟨d, m, k⟩ := i
-  obtain ⟨rc, base, ids, hrc, hwf, _, hc, htim, hsh, hb, hci, hsome, hnd, hres⟩ := DomOrder_unpack h
+  obtain ⟨rc, base, ids, hrc, hc, htim, hsh, hb, hci, hsome, hnd, hres⟩ := DomOrder_unpack h
   simp only at hs ⊢
   have hids : keysOf "story" rc.kids = ids := by
     unfold containerIds at hci
     simp only [hrc, hs, if_true] at hci
     exact Option.some.inj hci
   subst hids
-  have g : Good "story" rc.kids := ⟨hwf, hnd, hsome⟩
+  have g : Good "story" rc.kids := ⟨hnd, hsome⟩
   have hed : k.editsRc = true := by cases k <;> first | rfl | exact absurd hs (by decide)
   rw [addK_editsRc k d m rc base hed hc hrc hb, shaped_mid hsh]
   obtain ⟨e1, e2, _⟩ := story_core k rc base g hs htim (by intro e; subst e; exact shaped_send hsh hb) hres
@@ -99,7 +97,7 @@ theorem shaped_movemultiple {m base : Xml} (h : shaped .ItemMoveMultiple m = tru
 theorem order_item (i : MergeInput) (h : DomOrder i = true) (hs : i.k.isItemLevel = true) :
     holdsOrder i (addK i.k i.d i.m) = true := by
   obtain ⟨d, m, k⟩ := i
-  obtain ⟨rc, base, ids, hrc, hwf, hwfi, hc, htim, hsh, hb, hci, hsome, hnd, hres⟩ := DomOrder_unpack h
+  obtain ⟨rc, base, ids, hrc, hc, htim, hsh, hb, hci, hsome, hnd, hres⟩ := DomOrder_unpack h
   simp only at hs ⊢
   have hns : k.isStoryLevel = false := by cases k <;> first | rfl | exact absurd hs (by decide)
   have hed : k.editsRc = true := by cases k <;> first | rfl | exact absurd hs (by decide)
@@ -124,15 +122,11 @@ theorem order_item (i : MergeInput) (h : DomOrder i = true) (hs : i.k.isItemLeve
         obtain ⟨_, rfl⟩ := List.getElem?_eq_some_iff.mp hsj
         simp only [isChild, Bool.and_eq_true] at hp
         simpa using hp.1
-      have hwi : WfKids "item" s.kids = true := by
-        rw [List.all_eq_true] at hwfi
-        have := hwfi s (List.mem_of_getElem? hsj)
-        simpa [hstag] using this
-      have g : Good "item" s.kids := ⟨hwi, hnd, hsome⟩
+      have g : Good "item" s.kids := ⟨hnd, hsome⟩
       obtain ⟨e1, e2, e3⟩ := item_core k base s.kids g hs
         (by intro e; subst e; exact shaped_movemultiple hsh hb) hres
       rw [addK_editsRc k d m rc base hed hc hrc hb, shaped_mid hsh,
-        mergeRc_item k rc base j s hs hwf ha hsj]
+        mergeRc_item k rc base j s hs ha hsj]
       have ha2 := addressed_set rc.kids (namedOf k base).story j s
         (s.withKids (itemFn k base s.kids).kids) ha hsj rfl (keyOf_story_withKids_o s _ e3)
       have hlt : j < rc.kids.length := (List.getElem?_eq_some_iff.mp hsj).1
